@@ -27,7 +27,8 @@ type roundtripCase struct {
 	Via   string       `json:"via"` // fields | at
 	Src   kit.V3       `json:"src"` // for via = at
 	Dst   kit.V3       `json:"dst"`
-	Probe [][3]float64 `json:"probe"` // x, y, t
+	Probe [][3]float64 `json:"probe"`           // x, y, t
+	Shear float64      `json:"shear,omitempty"` // ScreenX = unit(X + Shear*Y): normalised, not perpendicular to ScreenY
 }
 
 func genRoundtrip(t *rapid.T) roundtripCase {
@@ -43,7 +44,12 @@ func genRoundtrip(t *rapid.T) roundtripCase {
 	origin := gen.Vec3(t, 5, "origin")
 	c.Cam = genCamLooking(t, origin, origin.Add(gen.Dir3(t, "look")), 0.02, 3.1, "cam")
 	c.Via = "fields"
-	if rapid.IntRange(0, 3).Draw(t, "via") == 0 {
+	if rapid.IntRange(0, 4).Draw(t, "sheared") == 0 {
+		// the documentation asks for normalised screen axes, not for perpendicular ones (an edited or hand-written
+		// camera): Uncaster still inverts Caster
+		c.Shear = gen.F(t, 0.02, 0.7, "shear") * float64(2*rapid.IntRange(0, 1).Draw(t, "shearsign")-1)
+		c.Cam.X = c.Cam.X.Add(c.Cam.Y.Scale(c.Shear)).Unit()
+	} else if rapid.IntRange(0, 3).Draw(t, "via") == 0 {
 		c.Via = "at"
 		c.Src, c.Dst = origin, origin.Add(gen.Dir3(t, "look2").Scale(gen.LogF(t, 0.01, 100, "dist")))
 		c.Cam.Fov = math.Abs(c.Cam.Fov)
@@ -84,7 +90,7 @@ func checkRoundtrip(c roundtripCase, o *kit.Obs) error {
 		// sign(fov) * ScreenX x ScreenY
 		want := ref.dir(x, y, c.W, c.H)
 		dv := m3.V3(d)
-		if e := dv.Unit().Sub(want.Unit()).Norm(); !(e <= 1e-12) {
+		if e := dv.Unit().Sub(want.Unit()).Norm(); c.Shear == 0 && !(e <= 1e-12) {
 			return fmt.Errorf("Caster(%g,%g)(%g,%g) = %v is not along the pinhole direction %v (angle %g)", c.W, c.H, x, y, dv, want, e)
 		}
 		pt := cam.Origin.Add(d.Scale(t))
@@ -92,6 +98,9 @@ func checkRoundtrip(c roundtripCase, o *kit.Obs) error {
 		// conditioning: the inverse of the axes matrix with plane distance 1/tan(fov/2) in [0.02, 100]
 		if tol := 1e-9 * (scale + math.Abs(x) + math.Abs(y)); !(math.Abs(gx-x) <= tol && math.Abs(gy-y) <= tol) {
 			return fmt.Errorf("Uncaster(origin + %g*Caster(%g,%g)) = (%.12g, %.12g) on a %gx%g image", t, x, y, gx, gy, c.W, c.H)
+		}
+		if c.Shear != 0 {
+			continue // the reference below is written for perpendicular axes
 		}
 		// and against the reference projection
 		rx, ry, lambda := ref.project(m3.V3(pt), c.W, c.H)
@@ -101,6 +110,11 @@ func checkRoundtrip(c roundtripCase, o *kit.Obs) error {
 		if tol := 1e-9 * (scale + math.Abs(x) + math.Abs(y)); !(math.Abs(rx-x) <= tol && math.Abs(ry-y) <= tol) {
 			return fmt.Errorf("the point origin + %g*Caster(%g,%g) projects to (%.12g, %.12g) in the pinhole model", t, x, y, rx, ry)
 		}
+	}
+	if c.Shear != 0 {
+		o.Label("sheared-axes")
+		o.NonTrivial()
+		return nil
 	}
 	// the field of view is the angle across the longer side, through the image centre
 	var a, b model3d.Coord3D
